@@ -136,6 +136,7 @@ PROPS["C12"] = {
                     "an argument list may be empty and `...` may stand at any argument position syntactically ('must be last' is an evaluation rule, C04)",
                     "`results ::= type` only: the EBNF's named result list was removed from WIT and is documentation staleness, not a defect",
                     "`borrow<id>`: a borrow names a resource",
+                    "`_` may stand for either arm of `result<..>` (`result<_>`, `result<T, _>`): the repository's fixture missing-ok-result-type.wac relies on it, so this is intended leniency, not a defect",
                     "doc comments are not compared here (C13 compares them); note: wac loses doc comments that follow a CR LF line ending, which no given property covers"],
     "technique": "runtime monitor: reference recogniser + generator-side tree as oracle over grammar-generated documents and token-level mutants",
     "level_text": "Acceptance is compared with an independent recogniser on ~10^4-10^6 near-miss token sequences per run and the tree is "
